@@ -558,7 +558,9 @@ restart:
           } else if (r->same_hash != ref_same && v == VF_PASS) {
             v = VF_VIOLATION;
             r->verdict = v;
-            snprintf((char*)r->key, sizeof r->key, "result-depends-on-schedule");
+            snprintf((char*)r->key, sizeof r->key,
+                     "%s%sresult-depends-on-schedule", (const char*)r->tag,
+                     r->tag[0] ? ":" : "");
             snprintf((char*)r->msg, sizeof r->msg,
                      "observable result %016llx differs from the base "
                      "schedule's %016llx",
@@ -634,7 +636,7 @@ restart:
       v.confirmed = 1;
       write_replay(st, v);
     } else if (v.verdict == VF_VIOLATION &&
-               !strcmp(v.key, "result-depends-on-schedule") &&
+               strstr(v.key, "result-depends-on-schedule") &&
                r->trace_hash == v.trace_hash) {
       v.confirmed = 1;
       write_replay(st, v);
